@@ -252,6 +252,9 @@ func (in *Interp) rtCall(fn *ssa.Function, a []Value) Value {
 	case "MapOrder":
 		p.mapPerm = in.p.simp(a[0].(BoolV).b).k == BTrue
 		return nil
+	case "DistinctUUIDs":
+		p.uuidDistinct = true
+		return nil
 	case "Unwind":
 		// the harness states a larger loop bound for repository code (a scenario with a big table)
 		p.unwind = int(num(0))
